@@ -31,13 +31,16 @@ def plan(tier):
             {"lane": "main", "n": 24 if q else 800, "timeout": 1200 if q else 3400, "min_per_shard": 1, "max_shards": 32},
             # a generating parameter that is exactly 0, noisy data, lower bound exactly 0 (float or int): the bound is active whenever the
             # unconstrained optimum is negative
-            {"lane": "zero-bound", "n": 24 if q else 600, "timeout": 1200 if q else 3400, "min_per_shard": 1, "max_shards": 32}]
+            {"lane": "zero-bound", "n": 24 if q else 600, "timeout": 1200 if q else 3400, "min_per_shard": 1, "max_shards": 32},
+            # numerical edge: one parameter is tiny in absolute terms (a per-capita rate for a population of 1e9..1e11: the model is
+            # re-parameterised as (F*p) with p = value/F), so that its whole box [0.3p, 3p] is narrower than 1e-8
+            {"lane": "tiny-parameter", "n": 16 if q else 400, "timeout": 1200 if q else 3400, "min_per_shard": 1, "max_shards": 32}]
 
 
 def floors(tier):
     return {"nontrivial": 12, "counter:fits": 100, "counter:truth_clause_checks": 20, "counter:box_checks": 100, "counter:no_worse_checks": 80,
             "counter:active_bound_fits": 15, "class:Square": 8, "class:Normal": 5, "class:Gamma": 3,
-            "counter:zero_bound_fits": 20, "counter:sibling_calls": 30, "class:x0-ndarray-shared": 15, "counter:zero_bound_active": 5}
+            "counter:zero_bound_fits": 20, "class:tiny-parameter": 8, "counter:sibling_calls": 30, "class:x0-ndarray-shared": 15, "counter:zero_bound_active": 5}
 
 
 def run_case(rng, idx, tier, lane, ctx):
@@ -45,10 +48,31 @@ def run_case(rng, idx, tier, lane, ctx):
                 "zero_bound_fits": 0, "zero_bound_active": 0}
     wit = []
     zero = lane == "zero-bound"
-    c = LC.build_model(rng, "catalogue" if (zero and rng.random() < 0.4) else ("main" if zero else lane), idx if not zero else rng.randrange(10 ** 6),
+    c = LC.build_model(rng, "catalogue" if (zero and rng.random() < 0.4) else ("main" if (zero or lane == "tiny-parameter") else lane), idx if not zero else rng.randrange(10 ** 6),
                        max_states=3, max_params=3, time_dep=not zero)
     if c.nP == 0:
         return {"status": "inconclusive", "reason": "parameter-free", "counters": counters}
+    if lane == "tiny-parameter":
+        import re
+        from verifkit.gen import specs as G
+        from verifkit.ref.symbolic import RefModel
+        kt = rng.randrange(c.nP)
+        pn = c.params[kt]
+        F = 10 ** rng.choice([9, 10, 11])
+        rep = lambda txt: re.sub(r"\b%s\b" % re.escape(pn), "(%d*%s)" % (F, pn), txt)
+        spec2 = dict(c.spec)
+        spec2["events"] = [{"rate": rep(e["rate"]), "trans": [[t[0], t[1], t[2], rep(str(t[3]))] for t in e["trans"]]} for e in c.spec["events"]]
+        spec2["odes"] = [[s_, rep(eq)] for s_, eq in c.spec["odes"]]
+        spec2["derived"] = [[n_, rep(eq)] for n_, eq in c.spec["derived"]]
+        c.spec = spec2
+        c.theta = list(c.theta)
+        c.theta[kt] = c.theta[kt] / F
+        with contextlib.redirect_stdout(io.StringIO()):
+            c.m = G.build(c.spec, backend="lambda")
+        c.ref = RefModel(c.spec)
+        c.m.parameters = list(c.theta)
+        c.m.initial_values = (list(c.x0), c.t0)
+        c.classes = list(c.classes) + ["tiny-parameter"]
     kz = None
     if zero:
         cand = [i for i, p_ in enumerate(c.params) if p_ != "N"]
@@ -58,7 +82,10 @@ def run_case(rng, idx, tier, lane, ctx):
         c.theta = list(c.theta)
         c.theta[kz] = 0.0
         c.m.parameters = list(c.theta)
-    rs = LC.ref_solution(c)
+    try:
+        rs = LC.ref_solution(c)
+    except ZeroDivisionError:
+        return {"status": "inconclusive", "reason": "the model divides by the parameter that was set to zero", "counters": counters}
     if not rs.ok:
         return {"status": "inconclusive", "reason": "reference:" + rs.reason, "counters": counters}
     if zero:
